@@ -324,6 +324,19 @@ def to_zstr(v):
 def str_len(v):
     if isinstance(v, str):
         return len(v)
+    if isinstance(v, StrT):
+        # literal parts are counted concretely: `len(f'...{x}...') > 0` is then linear arithmetic
+        k = 0
+        sym = None
+        for p in v.parts:
+            if isinstance(p, str):
+                k += len(p)
+            else:
+                t = z3.Length(to_zstr(p))
+                sym = t if sym is None else sym + t
+        if sym is None:
+            return k
+        return sym if k == 0 else k + sym
     return z3.Length(to_zstr(v))
 
 
